@@ -267,3 +267,19 @@ Proof.
   - vm_compute. intuition discriminate.
   - vm_compute. repeat split; reflexivity.
 Qed.
+
+Lemma ex_choice_forms :
+  let extra := [hp "c-any" (VChoices ["a"; "b"]%string) false; hp "c-one" (VChoiceStr ["a"; "b"]%string) false;
+                hp "c-list" (VChoiceList ["a"; "b"]%string) false] in
+  let reg := mk_registry jws_default_header_registry extra in
+  let h v := [(asc "alg", PStr (asc "HS256")); v] in
+  jws_check_header reg true (h (asc "c-any", PStr (asc "a"))) = Ok tt /\
+  jws_check_header reg true (h (asc "c-any", PList [PStr (asc "a"); PStr (asc "b")])) = Ok tt /\
+  jws_check_header reg true (h (asc "c-one", PStr (asc "b"))) = Ok tt /\
+  jws_check_header reg true (h (asc "c-one", PList [PStr (asc "b")])) = Err EValue /\
+  jws_check_header reg true (h (asc "c-one", PList [])) = Err EValue /\
+  jws_check_header reg true (h (asc "c-list", PList [PStr (asc "b")])) = Ok tt /\
+  jws_check_header reg true (h (asc "c-list", PList [])) = Ok tt /\
+  jws_check_header reg true (h (asc "c-list", PStr (asc "b"))) = Err EValue /\
+  jws_check_header reg true (h (asc "c-list", PList [PStr (asc "b"); PStr (asc "c")])) = Err EValue.
+Proof. vm_compute. repeat split; reflexivity. Qed.
